@@ -145,6 +145,13 @@ class Inliner(object):
       if any(isinstance(x, (ast.Yield, ast.YieldFrom)) for x in walk_no_nested(node, include_self=False)):
         node.body = self._delegations(node.body, fi, [fi.key], inlined, True)
       node.body = self._block(node.body, fi, [fi.key], inlined, 0)
+      # calls that came in with a spliced body and whose receiver is a name of this function (self.helper2(...) inside
+      # helper1) resolve in this function's context: a few more rounds pick them up
+      for _ in range(2):
+        before = len([x for x in inlined if x != '<flag>'])
+        node.body = self._block(node.body, fi, [fi.key] + [x for x in inlined if x != '<flag>'], inlined, 0)
+        if len([x for x in inlined if x != '<flag>']) == before:
+          break
     finally:
       self._cur_locals = outer if outer is not None else set()
     if inlined:
